@@ -264,6 +264,28 @@ def search(ctx, deep=False):
                 if not (close(got[1], want[1], tol) and np.array_equal(got[2], want[2])):
                     viol.append({"key": key, "what": what, "case": desc, "got": [np.asarray(got[1]).tolist(), np.asarray(got[2]).tolist()],
                                  "want": [np.asarray(want[1]).tolist(), np.asarray(want[2]).tolist()]})
+            if t % 5 == 0:
+                # preprocessing with trend / mean / normalizer (+ fit_normalizer): the estimate must be the estimate of the
+                # hand-prepared data  normalize(field - trend(pos)) - mean, with the normalizer fitted on the DETRENDED data
+                cls = [gs.normalizer.BoxCox, gs.normalizer.YeoJohnson, gs.normalizer.LogNormal, gs.normalizer.Modulus][t // 5 % 4]
+                a = rng.uniform(-0.5, 0.5, size=dim)
+                tr = (lambda *x, a=a: 5.0 + sum(ai * xi for ai, xi in zip(a, x))) if rng.rand() < 0.7 else float(rng.choice([3.0, -2.0]))
+                trv = tr(*pos) if callable(tr) else np.full(P, tr)
+                raw = np.exp(rng.randn(P) * 0.6) + 0.2          # positive detrended data
+                fld = raw + trv
+                mean = float(rng.choice([0.0, 0.4]))
+                for fit in (False, True):
+                    nz = cls() if cls is gs.normalizer.LogNormal else cls(lmbda=float(rng.choice([0.3, 0.7, 1.4])))
+                    ref_nz = cls() if cls is gs.normalizer.LogNormal else cls(lmbda=nz.lmbda)
+                    if fit and cls is not gs.normalizer.LogNormal:
+                        ref_nz.fit(fld - trv)
+                    want = gs.vario_estimate(pos, ref_nz.normalize(fld - trv) - mean, bins, estimator=est, return_counts=True)
+                    got = gs.vario_estimate(pos, fld, bins, estimator=est, return_counts=True, trend=tr, mean=mean,
+                                            normalizer=nz, fit_normalizer=fit)
+                    ev += 1
+                    chk(f"preprocessing:trend-normalizer-mean:{'fit' if fit else 'given'}",
+                        "vario_estimate(trend, mean, normalizer, fit_normalizer) is not the estimate of normalize(field - trend) - mean "
+                        "(normalizer fitted on the detrended data)", got, want, 1e-6 if fit else 1e-9)
             p = rng.permutation(P)
             chk("invariance:permutation", "isotropic variogram changes under a permutation of the points",
                 gs.vario_estimate(pos[:, p], f[p], bins, estimator=est, return_counts=True))
